@@ -66,3 +66,17 @@ Definition worker_ok (evs : list string) : bool :=
     && Nat.eqb (count_of "Publish:other" post) 0 && Nat.leb (count_of "Publish:copy" post) 1
     && mirror_ok post
   end.
+
+(* ---------- the receive loops (Gen/Receive.v) ---------- *)
+(* the loop the accounting model assumes: take a buffer, read one datagram into it, on a read ERROR (and on nothing else: not on
+   a particular length) go round again, otherwise count the datagram and queue exactly its N octets with its source address.
+   Setting the read deadline may stand anywhere before the read. *)
+Fixpoint strs_eqb (a b : list string) : bool :=
+  match a, b with
+  | [], [] => true
+  | x :: a', y :: b' => String.eqb x y && strs_eqb a' b'
+  | _, _ => false
+  end.
+Definition receive_ok (evs : list string) : bool :=
+  let core := filter (fun e => negb (String.eqb e "Deadline")) evs in
+  strs_eqb core ["Get"; "Read"; "Skip:E != nil"; "Count"; "Send:A,B[:N]"].
